@@ -1021,12 +1021,12 @@ func ruleReasonIffFailed(r *Run, rule string) {
 			for i, l := range as.Lhs {
 				if _, m := FieldPath(pkg.TypesInfo, l, "workflow.Plan", "State", "Status"); m && ValueKey(pkg.TypesInfo, as.Rhs[i]) == "workflow.Completed" {
 					nC++
-					if !allowedCompleted[name] {
+					if !allowedCompleted[name] && !privateToAny(r, fn.Key, pkgSM, allowedCompleted) {
 						okC, pc = false, as.Pos()
 					}
 				}
 				if _, m := FieldPath(pkg.TypesInfo, l, "workflow.Plan", "Reason"); m {
-					if !allowedReason[name] {
+					if !allowedReason[name] && !privateToAny(r, fn.Key, pkgSM, allowedReason) {
 						okR, pr = false, as.Pos()
 					}
 				}
@@ -1103,4 +1103,14 @@ func ruleRunnerEnd(r *Run, rule string) {
 		return
 	}
 	r.Check(rule, "Runner.End:completed-iff-no-error", bpos, bad == "", "%s", orOK(bad, "Completed exactly when Data.err == nil, Failed otherwise"))
+}
+
+// privateToAny: key is a private helper (a piece split off) of one of the named functions of pkg.
+func privateToAny(r *Run, key, pkg string, names map[string]bool) bool {
+	for n := range names {
+		if r.P.CallGraph().PrivateTo(key, pkg+"."+n) {
+			return true
+		}
+	}
+	return false
 }
